@@ -25,6 +25,7 @@ def fl (x : Nat) (l : List Msg) : List Msg := l.filter (isFl x)
 def toItem : Msg → Option Link.Item
   | .frame (.push _ d) => some (.push d)
   | .frame (.finish _) => some .fin
+  | .frame (.reset _) => some .rst
   | _ => none
 
 def ackOf : Msg → Option Nat
@@ -107,6 +108,65 @@ structure DirRel (oS oR : Obj) (fwd bwd : List Msg) (w r : Bytes) (eof : Bool) (
   heof : l.eofSeen = eof
   hrx : oR.rxOpen = false → oR.senderAlive = false
 
+/-- The receiving half of a stream object is still observed by its application: it is open, or a
+    read has already returned end-of-stream (after which the object is frozen). It is not after the
+    handle was dropped (or for a stream nobody waits for). -/
+def ReaderOk (o : Obj) (eof : Bool) : Prop := o.rxOpen = true ∨ eof = true
+
+/-- Everything up to and including the first end marker (what follows — the `Reset` replies of an
+    endpoint that no longer knows the flow — is noise). -/
+def cutEnd : List Link.Item → List Link.Item
+  | [] => []
+  | .push d :: rest => .push d :: cutEnd rest
+  | x :: _ => [x]
+
+def noReset (l : List Msg) : Prop := ∀ m ∈ l, ∀ y, m ≠ .frame (.reset y)
+
+/-- One direction whose sending endpoint has released the flow (its object is closed for writing):
+    the receiver's side is still a state of the link model, with the sender finished. The sender's
+    credit and the acknowledgements no longer matter. -/
+structure DirRelA (oR : Obj) (fwd : List Msg) (w r : Bytes) (eof : Bool) (l : Link.St) : Prop where
+  inv : Link.Inv l
+  hW : l.W = oR.cap
+  hWb : oR.cap < 4294967296
+  hth : l.th = oR.threshold
+  hfin : l.sFin = true
+  hwire : l.wire = if oR.senderAlive then cutEnd (fwd.filterMap toItem) else []
+  halive : l.rAlive = oR.senderAlive
+  hrxq : l.rxq = oR.rxq
+  hbuf : l.buf = oR.buf
+  hsince : l.since = oR.recvdSince
+  hacc : l.accepted = w
+  hdel : l.delivered = r
+  heof : l.eofSeen = eof
+  hrx : oR.rxOpen = false → oR.senderAlive = false
+
+/-- No `Push` follows an end marker. -/
+def noPushAfterEnd : List Link.Item → Bool
+  | [] => true
+  | .push _ :: rest => noPushAfterEnd rest
+  | _ :: rest => (Link.pushes rest).isEmpty
+
+/-- What holds for the path `S → R` of a live flow whether or not `R`'s application still observes
+    it: data never follows an end marker; an end marker is on the way only if the sender's write side
+    is closed; once the receiving slot has seen the end, no data is in flight. -/
+structure Wire (oS oR : Obj) (sR : Option Slot) (fwd : List Msg) : Prop where
+  shape : noPushAfterEnd (fwd.filterMap toItem) = true
+  ended : Link.hasEnd (fwd.filterMap toItem) = true → oS.finishSent = true
+  quiet : sR ≠ none → oR.senderAlive = false → Link.pushes (fwd.filterMap toItem) = [] ∧ oS.finishSent = true
+
+/-- The slot of a live flow at one endpoint: established with the flow's object, or released — then
+    the object is closed in both directions. -/
+def SlotOk (s : Option Slot) (i : Nat) (o : Obj) : Prop :=
+  s = some (.established i) ∨ (s = none ∧ o.finishSent = true ∧ o.senderAlive = false)
+
+/-- What is claimed for the direction `S → R` of a live flow, as long as `R`'s application still
+    observes its receiving half: the full relation while `S` holds the flow, the frozen-sender
+    relation after `S` released it. -/
+def Claim (sS : Option Slot) (oS oR : Obj) (fwd bwd : List Msg) (w r : Bytes) (eof : Bool) : Prop :=
+  ReaderOk oR eof →
+    (sS ≠ none → ∃ l, DirRel oS oR fwd bwd w r eof l) ∧ (sS = none → ∃ l, DirRelA oR fwd w r eof l)
+
 /-! ### Phases -/
 
 def NoObj (v : EV) : Prop := ∀ k, v.objs k = none
@@ -153,27 +213,36 @@ structure HalfOpen (x : Nat) (va vb : EV) (fab fba : List Msg) : Prop where
     oP.cap = vb.opts.rwnd ∧ oP.threshold = thresholdFor vb.opts va.opts.rwnd ∧
     oP.rxq = [] ∧ oP.buf = [] ∧ oP.recvdSince = 0 ∧ oP.senderAlive = true ∧
     DirRel oP (newObj va.opts x vb.opts.rwnd [] 0) rest [] (vb.wlog j) [] false l ∧
-    vb.rlog j = [] ∧ vb.eof j = false ∧ (¬ vb.dq → oP.rxOpen = true)
+    vb.rlog j = [] ∧ vb.eof j = false ∧ (¬ vb.dq → oP.rxOpen = true) ∧ noReset rest ∧
+    noPushAfterEnd (rest.filterMap toItem) = true ∧ (Link.hasEnd (rest.filterMap toItem) = true → oP.finishSent = true) ∧
+    (vb.dq → oP.rxOpen = false)
 
+/-- The flow has been established on both endpoints (it may since have been released on one or
+    both): each endpoint has exactly one object for it; per direction the claim above holds. While an
+    endpoint holds the flow it has sent no `Reset` for it. -/
 structure Linked (x : Nat) (va vb : EV) (fab fba : List Msg) : Prop where
   ra : ¬ va.inRng
   rb : ¬ vb.inRng
   nab : noConnect fab
   nba : noConnect fba
   body : ∃ i j oA oB,
-    va.slot = some (.established i) ∧ vb.slot = some (.established j) ∧
     va.objs i = some oA ∧ vb.objs j = some oB ∧ OnlyObj va i ∧ OnlyObj vb j ∧
     oA.cap = va.opts.rwnd ∧ oB.cap = vb.opts.rwnd ∧
-    (¬ va.dq → ¬ vb.dq →
-      (∃ l, DirRel oA oB fab fba (va.wlog i) (vb.rlog j) (vb.eof j) l) ∧
-      (∃ l, DirRel oB oA fba fab (vb.wlog j) (va.rlog i) (va.eof i) l))
+    SlotOk va.slot i oA ∧ SlotOk vb.slot j oB ∧
+    (va.slot ≠ none → noReset fab) ∧ (vb.slot ≠ none → noReset fba) ∧
+    Wire oA oB vb.slot fab ∧ Wire oB oA va.slot fba ∧
+    (va.dq → oA.rxOpen = false) ∧ (vb.dq → oB.rxOpen = false) ∧
+    Claim va.slot oA oB fab fba (va.wlog i) (vb.rlog j) (vb.eof j) ∧
+    Claim vb.slot oB oA fba fab (vb.wlog j) (va.rlog i) (va.eof i)
 
+/-- Nothing is claimed: the flow is released on at least one endpoint (without ever having been
+    linked, or after an irregular event), or a `Reset` for it is in flight. It never becomes live again. -/
 structure Dead (x : Nat) (va vb : EV) (fab fba : List Msg) : Prop where
   ra : ¬ va.inRng
   rb : ¬ vb.inRng
   nab : noConnect fab
   nba : noConnect fba
-  gone : va.slot = none ∨ vb.slot = none
+  gone : va.slot = none ∨ vb.slot = none ∨ ¬ noReset fab ∨ ¬ noReset fba
 
 /-- The phase of flow `x`, on views. -/
 def PhV (x : Nat) (va vb : EV) (fab fba : List Msg) : Prop :=
@@ -207,6 +276,7 @@ structure Inv (p : PS) : Prop where
   ghA : GhostFresh p.a p.ga
   ghB : GhostFresh p.b p.gb
   phase : ∀ x, Phase x p
+  live : ∀ x ∈ p.linked, Linked x (ev x p.a p.ga) (ev x p.b p.gb) (fl x (pathAB p)) (fl x (pathBA p))
 
 /-! ### Symmetry -/
 
@@ -214,11 +284,16 @@ theorem Fresh.swap {x : Nat} {va vb : EV} {fab fba : List Msg} (h : Fresh x va v
   ⟨h.inRng.symm, h.sb, h.sa, h.fba, h.fab, h.ob, h.oa, h.db, h.da⟩
 
 theorem Dead.swap {x : Nat} {va vb : EV} {fab fba : List Msg} (h : Dead x va vb fab fba) : Dead x vb va fba fab :=
-  ⟨h.rb, h.ra, h.nba, h.nab, h.gone.symm⟩
+  ⟨h.rb, h.ra, h.nba, h.nab, by
+    rcases h.gone with g | g | g | g
+    · exact Or.inr (Or.inl g)
+    · exact Or.inl g
+    · exact Or.inr (Or.inr (Or.inr g))
+    · exact Or.inr (Or.inr (Or.inl g))⟩
 
 theorem Linked.swap {x : Nat} {va vb : EV} {fab fba : List Msg} (h : Linked x va vb fab fba) : Linked x vb va fba fab := by
-  obtain ⟨i, j, oA, oB, h1, h2, h3, h4, h5, h6, c1, c2, h7⟩ := h.body
-  exact ⟨h.rb, h.ra, h.nba, h.nab, ⟨j, i, oB, oA, h2, h1, h4, h3, h6, h5, c2, c1, fun hb ha => (h7 ha hb).symm⟩⟩
+  obtain ⟨i, j, oA, oB, h3, h4, h5, h6, c1, c2, s1, s2, n1, n2, w1, w2, d1, d2, k1, k2⟩ := h.body
+  exact ⟨h.rb, h.ra, h.nba, h.nab, ⟨j, i, oB, oA, h4, h3, h6, h5, c2, c1, s2, s1, n2, n1, w2, w1, d2, d1, k2, k1⟩⟩
 
 theorem PhV.swap {x : Nat} {va vb : EV} {fab fba : List Msg} (h : PhV x va vb fab fba) : PhV x vb va fba fab := by
   rcases h with h | h | h | h | h | h | h
@@ -233,7 +308,7 @@ theorem PhV.swap {x : Nat} {va vb : EV} {fab fba : List Msg} (h : PhV x va vb fa
 theorem Phase.swap {x : Nat} {p : PS} (h : Phase x p) : Phase x p.swap := PhV.swap h
 
 theorem Inv.swap {p : PS} (h : Inv p) : Inv p.swap := by
-  refine ⟨h.runB, h.runA, h.sfB, h.sfA, ?_, ?_, h.ghB, h.ghA, fun x => (h.phase x).swap⟩
+  refine ⟨h.runB, h.runA, h.sfB, h.sfA, ?_, ?_, h.ghB, h.ghA, fun x => (h.phase x).swap, fun x hx => (h.live x hx).swap⟩
   · have := h.nodup
     simp only [PS.swap]
     rw [List.nodup_append] at this ⊢
@@ -317,5 +392,17 @@ theorem Phase.congr {x : Nat} {p p' : PS} (ha : ev x p'.a p'.ga = ev x p.a p.ga)
     Phase x p' := by
   unfold Phase at *
   rw [ha, hb, hab, hba]; exact h
+
+theorem Linked.congr {x : Nat} {p p' : PS} (ha : ev x p'.a p'.ga = ev x p.a p.ga) (hb : ev x p'.b p'.gb = ev x p.b p.gb)
+    (hab : fl x (pathAB p') = fl x (pathAB p)) (hba : fl x (pathBA p') = fl x (pathBA p))
+    (h : Linked x (ev x p.a p.ga) (ev x p.b p.gb) (fl x (pathAB p)) (fl x (pathBA p))) :
+    Linked x (ev x p'.a p'.ga) (ev x p'.b p'.gb) (fl x (pathAB p')) (fl x (pathBA p')) := by
+  rw [ha, hb, hab, hba]; exact h
+
+/-- The phase of a flow, together with: a flow recorded as linked is in the live phase. -/
+def PhaseL (x : Nat) (p : PS) : Prop :=
+  Phase x p ∧ (x ∈ p.linked → Linked x (ev x p.a p.ga) (ev x p.b p.gb) (fl x (pathAB p)) (fl x (pathBA p)))
+
+theorem Inv.phaseL {p : PS} (h : Inv p) (x : Nat) : PhaseL x p := ⟨h.phase x, h.live x⟩
 
 end Penguin.Pair
